@@ -308,7 +308,9 @@ def run(tier, seed, only=None):
     sets = list(MASS_SETS)
     Ns = [1, 2, 17, 1000] if tier == "thorough" else [1, 2, 17, 200]
     if "gen" in parts:
-        items = [{"set": s, "n": n, "Ns": Ns, "seed": seed} for s in sets for n in range(2, 7)]
+        items = [{"set": s, "n": n, "Ns": Ns, "seed": seed,
+                  "_timeout": (600, "gen:no-return", "PhaseSpaceGenerator(masses %s, n=%d).generate does not deliver the requested events" % (s, n))}
+                 for s in sets for n in range(2, 7)]
         out += pool.run_items("mc.props.C10", "gen_work", items)
     if "weight" in parts:
         K = {3: 41, 4: 15, 5: 9, 6: 6} if tier == "thorough" else {3: 21, 4: 9, 5: 5, 6: 4}
@@ -317,7 +319,8 @@ def run(tier, seed, only=None):
     if "accept" in parts:
         out += pool.run_items("mc.props.C10", "accept_work", [{"set": s} for s in sets])
     if "nested" in parts:
-        out += pool.run_items("mc.props.C10", "nested_work", [{"set": s, "seed": seed, "Ns": Ns[:3] + [100]} for s in sets])
+        out += pool.run_items("mc.props.C10", "nested_work", [{"set": s, "seed": seed, "Ns": Ns[:3] + [100],
+                                                               "_timeout": (600, "nested:no-return", "generate_phsp (masses %s) does not deliver the requested events" % s)} for s in sets])
     if "api" in parts:
         out += pool.run_items("mc.props.C10", "api_work", [{"seed": seed}])
     for r in out:
